@@ -245,7 +245,8 @@ class World:
         w = self.workers[wid]
         w['rev'] = rev
         n = len(farm._workers)
-        self.feed(wid, message.make(typ=message.Type.register, inc=1, rev=rev))
+        # the incarnation number is the launcher's business (the repository's own launchers start workers with -i 0)
+        self.feed(wid, message.make(typ=message.Type.register, inc=wid % 2, rev=rev))
         w['registered'] = any(h is w['hand'] for h in farm._workers)
         self.settle()
         return wid
